@@ -370,8 +370,9 @@ impl OwnableInterface for InterchainToken {
     }
 
     fn transfer_ownership(env: &Env, new_owner: Address) {
+        let previous_owner = Self::owner(env);
         interfaces::transfer_ownership::<Self>(env, new_owner.clone());
         // adhere to reference implementation for tokens and emit predefined soroban event
-        TokenEvents::new(env).set_admin(Self::owner(env), new_owner);
+        TokenEvents::new(env).set_admin(previous_owner, new_owner);
     }
 }
